@@ -1974,7 +1974,8 @@ def _put_slice_ImportFrom_names(
             self._put_src(')', pars_end_ln, pars_end_col, pars_end_ln, pars_end_col, True, False, self)
             self._put_src('(', pars_ln, pars_col, pars_ln, pars_col, False)
 
-        # THEORETICALLY could need to _fix_joined_alnums() but only if the user goes out of their way to F S up, so we don't bother with this
+        else:
+            self._fix_joined_alnums(pars_ln, pars_col)  # 'from a import*' -> 'from a importx'
 
     elif put_star:  # if put star then must remove parentheses (including any trivia inside them)
         pars_ln, pars_col, pars_end_ln, pars_end_col = self._loc_ImportFrom_names_pars()
